@@ -408,7 +408,7 @@ class Merger:
                     raise MergeException(
                         "Mandatory identity key, {}, not present in Hash with"
                         " keys:  {}."
-                        .format(id_key, ", ".join(ele.keys()))
+                        .format(id_key, ", ".join(str(k) for k in ele.keys()))
                         , path_next
                     )
 
